@@ -495,7 +495,7 @@ def _masked_assign(arr, mask, val):
     if real_np.ndim(val) == 0:
         val = R.lift(val if not isinstance(val, real_np.ndarray) else val[()])
         base = arr.view(real_np.ndarray)
-        m = real_np.broadcast_to(mask, arr.shape)
+        m = real_np.broadcast_to(mask.view(real_np.ndarray), arr.shape)
         for idx in real_np.ndindex(*arr.shape):
             base[idx] = ite(m[idx], val, base[idx])
         return
@@ -617,8 +617,15 @@ def rankdata(a, method='average', axis=None, nan_policy='propagate'):
     n = len(v)
     if any(R.lift(x).tag == 'nan' for x in v):
         if nan_policy == 'propagate':
-            return wrap(real_np.full(n, real_np.nan))
-        raise Unsupported('rankdata nan_policy')
+            return real_np.full(n, real_np.nan)
+        if nan_policy == 'omit':
+            keep = [i for i, x in enumerate(v) if R.lift(x).tag != 'nan']
+            sub = rankdata(real_np.array([v[i] for i in keep], dtype=object), method) if keep else []
+            out = real_np.full(n, real_np.nan)
+            for i, r in zip(keep, sub):
+                out[i] = r
+            return out
+        raise ValueError('The input contains nan values')
     order = argsort1(v)
     ranks = [None] * n
     i = 0
@@ -722,7 +729,9 @@ def cov(m, y=None, rowvar=True, bias=False, ddof=None, **kw):
         else:
             cmat = cmat * R.const(Fraction(1, fact))
     if cmat.shape == (1, 1):
-        return cmat[0, 0]
+        out = real_np.empty((), dtype=object)      # numpy returns a 0-d array for a single variable
+        out[()] = cmat[0, 0]
+        return out.view(SymArray)
     return cmat
 
 
